@@ -185,6 +185,11 @@ def run(ctx):  # noqa: C901, PLR0912, PLR0915
                     ctx.ob('C19.R3', f'__init__: is_ssl_connection = {val}', ok,
                            f'constructor: is_ssl_connection = {val} under {[f for f in facts if "ssl" in f[0]]}', fi=fi,
                            node=n.stmt)
+                elif val not in ('True', 'False'):
+                    ctx.ob('C19.R3', f'{name}: decision reset', False,
+                           f'{name}: is_ssl_connection is set to {val} after construction: the decision "TLS enforced" '
+                           f'(True) is forgotten and the next connect may fall back to plaintext on an SSLError', fi=fi,
+                           node=n.stmt, witness={'facts': facts})
                 elif val == 'False':
                     ok = ('self.is_ssl_connection is None', True) in facts
                     ctx.ob('C19.R3', f'{name}: downgrade', ok,
@@ -294,6 +299,8 @@ SEEDS = [
          (_C, "        use_ssl = self.is_ssl_connection is not False  # if is_ssl_connection is still None, default to use_ssl = True", "        use_ssl = self.is_ssl_connection is not False and _url.scheme == 'https'")),
     seed('downgrade also when enforced', 'C19.R3',
          (_C, "        if self.is_ssl_connection is not None:\n            # decision was already made in constructor\n            soap_client.connect()\n        else:", "        if self.is_ssl_connection is False:\n            # decision was already made in constructor\n            soap_client.connect()\n        else:")),
+    seed('restart forgets the enforcement', 'C19.R3',
+         (_C, "    def _connect(self):\n        soap_client = self.get_soap_client(self._provider_address)", "    def _reset_tls_decision(self):\n        if self._ssl_context_container is not None:\n            self.is_ssl_connection = None\n\n    def _connect(self):\n        soap_client = self.get_soap_client(self._provider_address)")),
     seed('force without container tolerated', 'C19.R3',
          (_C, "            if ssl_context_container is None:\n                raise ValueError(\n                    'Invalid combination of ssl_connect (True) and ssl_context_container (None) parameters',\n                )\n            self.is_ssl_connection = True",
           "            self.is_ssl_connection = ssl_context_container is not None"), accept_analysis_error=True),
